@@ -3,7 +3,7 @@
 //! Every row-group read used to reopen the file and re-parse the footer
 //! (arrow's `try_new` path): lineitem at SF=10 has ~900 row groups, so a
 //! single scan parsed the same multi-column footer ~900 times. The cache
-//! parses once per (path, mtime) and hands out cheap clones
+//! parses once per (path, file stamp) and hands out cheap clones
 //! (`ArrowReaderMetadata` is Arc-backed).
 
 use crate::error::Result;
@@ -15,17 +15,64 @@ use std::fs::File;
 use std::path::{Path, PathBuf};
 use std::time::SystemTime;
 
-static CACHE: parking_lot::RwLock<Option<HashMap<PathBuf, (SystemTime, ArrowReaderMetadata)>>> =
+/// Identity of a file's current content, as far as the file system can tell
+/// without reading it. The modification time alone is not enough: a file
+/// replaced with its mtime preserved (rsync -t, cp -p, a restore) or
+/// rewritten within the timestamp granularity would keep serving the old
+/// footer. Length, inode and change time (which no utime call can set)
+/// close that gap on Unix.
+#[derive(Clone, Debug, PartialEq, Eq)]
+pub struct FileStamp {
+    mtime: SystemTime,
+    len: u64,
+    ino: u64,
+    ctime_ns: i128,
+}
+
+impl FileStamp {
+    pub fn of(meta: &std::fs::Metadata) -> std::io::Result<FileStamp> {
+        #[cfg(unix)]
+        let (ino, ctime_ns) = {
+            use std::os::unix::fs::MetadataExt;
+            (
+                meta.ino(),
+                meta.ctime() as i128 * 1_000_000_000 + meta.ctime_nsec() as i128,
+            )
+        };
+        #[cfg(not(unix))]
+        let (ino, ctime_ns) = (0u64, 0i128);
+        Ok(FileStamp {
+            mtime: meta.modified()?,
+            len: meta.len(),
+            ino,
+            ctime_ns,
+        })
+    }
+
+    /// Stable text form (persisted in IPC sidecar `.complete` files).
+    pub fn to_token(&self) -> Option<String> {
+        let m = self.mtime.duration_since(std::time::UNIX_EPOCH).ok()?;
+        Some(format!(
+            "{}:{}:{}:{}",
+            self.len,
+            m.as_nanos(),
+            self.ctime_ns,
+            self.ino
+        ))
+    }
+}
+
+static CACHE: parking_lot::RwLock<Option<HashMap<PathBuf, (FileStamp, ArrowReaderMetadata)>>> =
     parking_lot::RwLock::new(None);
 
 /// Cached footer metadata for `path` (plain reader options).
 pub fn cached_metadata(path: &Path) -> Result<ArrowReaderMetadata> {
-    let mtime = std::fs::metadata(path)?.modified()?;
+    let stamp = FileStamp::of(&std::fs::metadata(path)?)?;
     {
         let guard = CACHE.read();
         if let Some(map) = guard.as_ref() {
             if let Some((t, md)) = map.get(path) {
-                if *t == mtime {
+                if *t == stamp {
                     return Ok(md.clone());
                 }
             }
@@ -36,7 +83,7 @@ pub fn cached_metadata(path: &Path) -> Result<ArrowReaderMetadata> {
     let mut guard = CACHE.write();
     guard
         .get_or_insert_with(HashMap::new)
-        .insert(path.to_path_buf(), (mtime, md.clone()));
+        .insert(path.to_path_buf(), (stamp, md.clone()));
     Ok(md)
 }
 
@@ -48,7 +95,7 @@ pub fn cached_reader_builder(path: &Path) -> Result<ParquetRecordBatchReaderBuil
 }
 
 static SCHEMA_CACHE: parking_lot::RwLock<
-    Option<HashMap<(PathBuf, usize), (SystemTime, ArrowReaderMetadata)>>,
+    Option<HashMap<(PathBuf, usize), (FileStamp, ArrowReaderMetadata)>>,
 > = parking_lot::RwLock::new(None);
 
 /// Reader builder with a coercion schema override (e.g. dictionary string
@@ -58,12 +105,12 @@ pub fn cached_reader_builder_with_schema(
     schema: arrow::datatypes::SchemaRef,
 ) -> Result<ParquetRecordBatchReaderBuilder<File>> {
     let key = (path.to_path_buf(), std::sync::Arc::as_ptr(&schema) as usize);
-    let mtime = std::fs::metadata(path)?.modified()?;
+    let stamp = FileStamp::of(&std::fs::metadata(path)?)?;
     {
         let guard = SCHEMA_CACHE.read();
         if let Some(map) = guard.as_ref() {
             if let Some((t, md)) = map.get(&key) {
-                if *t == mtime {
+                if *t == stamp {
                     let file = File::open(path)?;
                     return Ok(ParquetRecordBatchReaderBuilder::new_with_metadata(
                         file,
@@ -81,7 +128,7 @@ pub fn cached_reader_builder_with_schema(
     SCHEMA_CACHE
         .write()
         .get_or_insert_with(HashMap::new)
-        .insert(key, (mtime, md.clone()));
+        .insert(key, (stamp, md.clone()));
     let file = File::open(path)?;
     Ok(ParquetRecordBatchReaderBuilder::new_with_metadata(file, md))
 }
